@@ -593,6 +593,11 @@ theorem apply0_acct_easy (w : World) (l : Label) (hg : guard w l) :
   case expectCancel x => simp only [apply0]; split <;> exact ⟨by acct_tac, fun _ _ => rfl⟩
   case expectTimeout x => simp only [apply0]; split <;> exact ⟨by acct_tac, fun _ _ => rfl⟩
   case expectCancelReq x => simp only [apply0]; split <;> exact ⟨by acct_tac, fun _ _ => rfl⟩
+  case hSkip p_ b_ e_ k_ =>
+    simp only [apply0]
+    cases hA : w.act p_ with
+    | none => exact ⟨rfl, fun _ _ => rfl⟩
+    | some A => exact ⟨setAct_acct w p_ A _ hA rfl, fun _ _ => rfl⟩
 
 end Bubus
 
